@@ -118,7 +118,13 @@ func relDivConst(fr *frame, op token.Token, x, y value) (value, bool) {
 	xneg := c.False()
 	if sg {
 		xneg = c.SLt(sx.t, zero)
-		a = c.Ite(xneg, c.BvNeg(sx.t), sx.t)
+		// |−u| and |u| are the same unsigned number for every u (also the minimum):
+		// take the magnitude of the un-negated term so that x and −x share it.
+		u := sx.t
+		for u.Op == smt.OBvNeg {
+			u = u.Args[0]
+		}
+		a = c.Ite(c.SLt(u, zero), c.BvNeg(u), u)
 	}
 	if ps.relDiv == nil {
 		ps.relDiv = map[relDivKey]relDivQR{}
